@@ -348,6 +348,10 @@ func bodyC06(s *Sim) {
 				s.grant(p[0], "")
 			}
 			s.Advance(time.Duration(1+s.rngSched.IntN(90)) * time.Second)
+			if s.rngSched.IntN(3) == 0 {
+				// kubectl-eds canary fail lands in the middle of the sync
+				s.RunCLIWhileParked("canary-fail", key)
+			}
 		}
 		s.Drain()
 	}
